@@ -427,6 +427,7 @@ type kase struct {
 	done           []step // steps executed so far
 	lastCounted    int    // failures counted during the last step
 	forgetTimedOut bool   // a due forgetter did not run within the settle wait
+	raced          bool   // see the O/A step: a retry that only scheduler noise makes possible
 	infra          string
 }
 
